@@ -28,6 +28,11 @@ PURE_FUNCS = {
     "add": (2, lambda x, y: x + y),
     "mix": (2, lambda x, y: 0.25 * x - y * y),
     "fma": (3, lambda x, y, z: x * y + z),
+    "w4": (4, lambda a, b, c, d: a + 2 * b + 3 * c + 4 * d),
+    "w5": (5, lambda a, b, c, d, e: a + 2 * b + 3 * c + 4 * d + 5 * e),
+    "w6": (6, lambda a, b, c, d, e, f: a + 2 * b + 3 * c + 4 * d + 5 * e + 6 * f),
+    "w7": (7, lambda a, b, c, d, e, f, g: a + 2 * b + 3 * c + 4 * d + 5 * e + 6 * f + 7 * g),
+    "w8": (8, lambda a, b, c, d, e, f, g, h: a + 2 * b + 3 * c + 4 * d + 5 * e + 6 * f + 7 * g + 8 * h),
 }
 
 BINOPS = {
@@ -107,6 +112,20 @@ class FakeSolver:
         self.calls.append((sp.csr_array(M, copy=True), np.array(RHS, copy=True)))
         if self.mode == "ext_raise":
             raise RuntimeError("injected external solver failure")
+        if self.mode == "ext_scribble_raise":
+            # a solver that reorders / rescales its inputs in place, then fails
+            M.data[...] = 0.0
+            RHS[...] = 0.0
+            raise RuntimeError("injected external solver failure after scribbling")
+        if self.mode == "ext_scribble":
+            # a solver that works in place on the arrays it was handed
+            self.ret = _scipy_spsolve(M.copy(), RHS.copy())
+            M.data[...] = 0.0
+            RHS[...] = 0.0
+            return np.array(self.ret, copy=True)
+        if self.mode == "ext_nan":
+            self.ret = np.full(len(RHS), np.nan)
+            return self.ret.copy()
         if self.mode == "ext_badshape":
             return np.zeros(len(RHS) + 1)
         if self.mode == "ext_mark":
@@ -982,7 +1001,7 @@ class World:
         items = []
         for s in specs:
             if "bad" in s:
-                items.append(("bad", s["bad"], None, None))
+                items.append(("bad", s["bad"], None, None, None))
                 continue
             te = self.get(s["t"], "t")
             if te.meta["kind"] not in ("M", "R", "MR"):
@@ -991,7 +1010,7 @@ class World:
             scale = s.get("scale")
             if te.meta["kind"] == "MR" and (neg or scale is not None):
                 neg, scale = False, None     # plain tuples support neither
-            items.append(("t", te, neg, scale))
+            items.append(("t", te, neg, scale, s.get("fmt")))
         return items
 
     def op_solve(self, a, op, ctx):
@@ -1012,8 +1031,10 @@ class World:
                 n = int(np.prod(np.asarray(ment.obj.dims) + 2))
                 user_terms.append(np.zeros((n, 1, 1)) if it[1] == "ndim3" else np.zeros((n, 1, 1)))
             else:
-                user_terms.append(O.apply_mods(it[1].obj, it[2], it[3]))
+                user_terms.append(O.apply_mods(it[1].obj, it[2], it[3], it[4]))
                 model_items.append((it[1].obj, it[2], it[3]))
+                if it[4]:
+                    self.probes["solve:term-format-" + str(it[4])] += 1
         has_bad = any(it[0] == "bad" for it in items)
         n_reuse = sum(1 for it in items if it[0] == "t" and it[1].meta.get("uses", 0) >= 2)
         for it in items:
@@ -1051,6 +1072,8 @@ class World:
         fault = None
         if mode == "ext_raise" and fake.calls:
             fault = "solver_raise"
+        elif mode == "ext_scribble_raise" and fake.calls:
+            fault = "solver_scribble"
         elif mode == "ext_badshape" and fake.calls:
             fault = "solver_badshape"
         elif has_bad:
@@ -1086,8 +1109,12 @@ class World:
             ctx.i4.append(vent.name)
             if "I5" in self.inv:
                 self.check_solve_contract(vent, ret, M, RHS, x_exp, fake, mode, degenerate, ctx)
-        if mode in ("ext", "ext_mark") and fake.calls:
+        if mode in ("ext", "ext_mark", "ext_scribble", "ext_nan") and fake.calls:
             self.stats["seam:external-solver-used"] += 1
+            if mode == "ext_scribble":
+                self.stats["fault-fired:solver_scribble"] += 1
+            if mode == "ext_nan":
+                self.stats["fault-fired:solver_nan"] += 1
         if M is not None and x_exp is not None and not np.all(np.isfinite(x_exp)):
             self.stats["fault-fired:singular"] += 1
             ctx.fault = ctx.fault or "singular"
@@ -1121,7 +1148,7 @@ class World:
             if len(fake.calls) != 1:
                 self.flag("C04", "I5", "seam-calls", {"calls": len(fake.calls)})
                 return
-            if mode == "ext_mark":
+            if mode in ("ext_mark", "ext_nan"):
                 return
         elif fake is not None and not fake.calls:
             self.flag("C04", "I5", "seam-ignored", {"var": vent.name})
@@ -1149,6 +1176,20 @@ class World:
             return
         if (A.snap_csr(M), A.akey(RHS)) != (Mk, Rk):
             self.flag("C15", "I1", "solveMatrixPDE/t/operand", {"var": vent.name})
+        if fake is not None:
+            fk = FakeSolver("ext_mark")
+            try:
+                w2 = pf.solveMatrixPDE(ment.obj, M, RHS, externalsolver=fk)
+            except Exception as ex:
+                self.flag("C04", "I5", "matrixpde-seam-raises", {"exc": repr(ex)})
+                return
+            if len(fk.calls) != 1 or not (O.mat_equal(fk.calls[0][0], M)
+                                          and same(fk.calls[0][1], RHS, 1e-12)):
+                self.flag("C04", "I5", "matrixpde-seam-system", {"calls": len(fk.calls)})
+                return
+            if not exact(A.interior(w2), np.reshape(fk.ret, shp)[(slice(1, -1),) * nd]):
+                self.flag("C04", "I5", "matrixpde-seam-result", {})
+                return
         wi = A.interior(w)
         x2 = np.array(xe, copy=True)
         x2[(slice(1, -1),) * nd] = wi
